@@ -52,6 +52,12 @@ func (s SchemaSchema) applyNamespace() {
 		for _, output := range step.OutputsValue {
 			output.Schema().ApplySelf()
 		}
+		for _, signal := range step.SignalHandlersValue {
+			signal.DataSchema().ApplySelf()
+		}
+		for _, signal := range step.SignalEmittersValue {
+			signal.DataSchema().ApplySelf()
+		}
 	}
 }
 
